@@ -3,6 +3,16 @@
 import json
 
 CLAIMED = {
+    "C02": {
+        "text": "Proof: eval_no_panic shows that evaluating any tree a compilation can produce (no Unspecified node), in any context - any variables, any registered functions including host functions of any signature - from any state never panics: it yields a value or an execution error; applyBin/applyUn/applyBuiltin_no_panic show the same for the value operators and every built-in on the parameter shapes extraction establishes. Every Rust panic site found while modelling was repaired in /repo (fix: commits) so that the model mirrors the code without exceptions. Tie to the code: well- and ill-typed generated programs to depth 8 against contexts with chrono/i64/u64 extremes, NaN/inf, function values and host functions of arity 0-9, plus all ordered pairs of a ~70-value boundary set under each operator implementation called directly; a panic of the implementation is itself the failing input.",
+        "technique": "Lean 4 Hoare-style Sat calculus over the monadic evaluator, induction on Expr (4 motives), extract/loopG lemmas + differential correspondence with catch_unwind panic detection",
+        "design_ref": "DESIGN.md section 5, C02",
+    },
+    "C03": {
+        "text": "Proof: the Lean evaluator is the reference semantics; theorems give the named rules for all operands: strict operators evaluate left then right and the first error aborts before anything of the later operand happens, list literals abort at the first failing element, integer operators are the checked operations of C08, list/map indexing yields the element or null for every index incl. negatives and the i64 extremes, identifiers resolve or raise undeclared with that name; short-circuit rules are C06's theorems. Tie to the code: typed-grammar programs to depth 6 compiled by the real parser and evaluated on both sides, value-for-value and error class for error class. Type soundness of the typed fragment is not yet proved (partial).",
+        "technique": "Lean 4 equational theorems about the evaluator + differential correspondence on typed-grammar programs (the model is the oracle)",
+        "design_ref": "DESIGN.md section 5, C03",
+    },
     "C07": {
         "text": "Proof: Lean theorems give, for arbitrary operand expressions, the exact sequencing of a call node as an equation between computations: receiver first, then the arguments left to right, each exactly once, then the host call logged with exactly those values (global and receiver style, any arity); strict operators evaluate left then right once; list elements and map key/value pairs in source order. The model is tied to the code by programs in which every leaf and call is a tagged logging host function, comparing the ordered call log with the model and with an independent left-to-right reference interpreter, and by nested call chains to depth 40 whose call count must stay linear.",
         "technique": "Lean 4 equational theorems about the monadic evaluator (monad laws, induction over signatures) + differential correspondence on ordered host-call logs",
